@@ -84,6 +84,8 @@ func (m *baseMocker) applyByName(funcName string, callback interface{}) {
 	m.guard = newPatchMockGuard(guard)
 	m.guard.Apply()
 	m.imp = callback
+	// 被取消过的 mocker 再次 Apply 之后重新生效, 否则 builder 缓存会把它当作已取消而丢弃, Reset 时无法还原
+	m.canceled = false
 }
 
 // applyByFunc 根据函数应用 mock
@@ -96,6 +98,8 @@ func (m *baseMocker) applyByFunc(funcDef interface{}, callback interface{}) {
 	m.guard = newPatchMockGuard(guard)
 	m.guard.Apply()
 	m.imp = callback
+	// 被取消过的 mocker 再次 Apply 之后重新生效, 否则 builder 缓存会把它当作已取消而丢弃, Reset 时无法还原
+	m.canceled = false
 	m.funcDef = funcDef
 }
 
@@ -109,6 +113,8 @@ func (m *baseMocker) applyByMethod(structDef interface{}, method string, callbac
 	m.guard = newPatchMockGuard(guard)
 	m.guard.Apply()
 	m.imp = callback
+	// 被取消过的 mocker 再次 Apply 之后重新生效, 否则 builder 缓存会把它当作已取消而丢弃, Reset 时无法还原
+	m.canceled = false
 	m.funcDef = reflect.ValueOf(structDef).MethodByName(method).Interface()
 }
 
@@ -129,6 +135,8 @@ func (m *baseMocker) applyByIFaceMethod(ctx *iface.IContext, iFace interface{}, 
 	m.guard = newIFaceMockGuard(ctx)
 	m.guard.Apply()
 	m.imp = callback
+	// 被取消过的 mocker 再次 Apply 之后重新生效, 否则 builder 缓存会把它当作已取消而丢弃, Reset 时无法还原
+	m.canceled = false
 }
 
 // whens 指定的返回值
